@@ -27,7 +27,7 @@ type Case struct {
 	Stage     string       `json:"stage"`          // same-chunk, queued, held, answered, unknown, flush-of-flush, multi
 	NFlush    int          `json:"nflush"`
 	Holds     []sched.Hold `json:"holds,omitempty"`
-	Self      bool         `json:"self,omitempty"` // stage unknown: the first Tflush names its own tag, the others name that Tflush
+	Self      bool         `json:"self,omitempty"`  // stage unknown: the first Tflush names its own tag, the others name that Tflush
 	Cycle     bool         `json:"cycle,omitempty"` // stage unknown: the Tflushes, written in one chunk, name each other's tags in a ring
 	// ProcOps: the implementation also provides go9p's SrvReqProcessOps (its
 	// SrvReqProcess / SrvReqRespond wrappers call req.Process() / req.PostProcess()).
@@ -41,6 +41,17 @@ type Case struct {
 	ReleaseAt  string `json:"release_at,omitempty"`
 	ReleaseWho int    `json:"release_who,omitempty"`
 	TAsync     bool   `json:"tasync,omitempty"` // the implementation answers the target from another goroutine after the op returned
+	// stage rebind: a fid-creating target (walk, attach, auth) is held in the
+	// implementation, NFlush (1..64) Tflushes of it are written; each stops at
+	// flush.decided (linked to the target, FlushOp not yet called) until the first
+	// WaitFor of them (0 = all) are linked, then all go on at once. The moment the
+	// FIRST Rflush arrives the harness re-uses the old tag: to bind the fid number
+	// the target would have bound (no success reply preceded) or for a Tstat.
+	WaitFor  int  `json:"waitfor,omitempty"`
+	OneByOne bool `json:"onebyone,omitempty"` // the Tflushes are written one frame at a time instead of in one chunk
+	// Wedge: the first Tflush written stops at respond.enter until the request that
+	// re-uses the old tag has been processed (it is processed between two Rflushes)
+	Wedge bool `json:"wedge,omitempty"`
 }
 
 const deadline = 30 * time.Second
@@ -117,7 +128,29 @@ type frame struct {
 func run(c *Case) error {
 	sv := script.NewServer(script.Config{Msize: 8192, Dotu: c.Dotu, Maxpend: c.Maxpend, Flush: c.FlushMode, Auth: true, ProcOps: c.ProcOps})
 	S := sv.S
-	ctl := sched.New(c.Holds)
+	holds := c.Holds
+	if c.Stage == "rebind" {
+		holds = append([]sched.Hold(nil), c.Holds...)
+		nf := c.NFlush
+		if nf < 1 {
+			nf = 1
+		}
+		for i := 0; i < nf; i++ {
+			holds = append(holds, sched.Hold{Who: fmt.Sprintf("Tflush/7/%d", 20+i), At: "flush.decided", UntilWho: "harness", UntilPoint: "go"})
+		}
+		if c.Wedge && nf > 1 {
+			// the first Tflush written is linked first, i.e. it is the last one of
+			// the chain behind the target and not the first to be answered
+			for i := 1; i < nf; i++ {
+				holds = append(holds, sched.Hold{Who: fmt.Sprintf("Tflush/7/%d", 20+i), At: "flush.enter", UntilWho: "Tflush/7/20", UntilPoint: "flush.linked"})
+			}
+			holds = append(holds, sched.Hold{Who: "Tflush/7/20", At: "respond.enter", UntilWho: script.Key(ref9p.Canon(rebindProbe(c, rebindExpected(c)), c.Dotu)), UntilPoint: "process.done"})
+		}
+	}
+	ctl := sched.New(holds)
+	if c.Stage == "rebind" {
+		ctl.Timeout = time.Second
+	}
 	defer sched.Install(ctl)()
 	end := sv.Dial("c07")
 	cl := rawc.New(end)
@@ -200,6 +233,7 @@ func run(c *Case) error {
 		return &ref9p.Msg{Type: ref9p.Tflush, Tag: t, Oldtag: old}
 	}
 	var okey string // older same-tag request (stage queued)
+	rebindStage := false
 	var answeredFirst *ref9p.Msg
 	targetSent := true
 	switch c.Stage {
@@ -244,6 +278,52 @@ func run(c *Case) error {
 				_ = cl.Send(mkFlush(i, ttag))
 			}
 		}
+	case "rebind":
+		// the target is parked in the implementation (Tauth: in AuthInit) and has
+		// reserved its fid number; the Tflushes queue up behind it
+		if c.Target != "walk" && c.Target != "attach" && c.Target != "auth" {
+			return fmt.Errorf("harness: stage rebind needs a target that binds a new fid number, not %q", c.Target)
+		}
+		tb.Hold = true
+		S.Set(tkey, tb)
+		ekey := tkey
+		if c.Target == "auth" {
+			ekey = "authinit/" + tm.Aname
+			S.Set(ekey, script.Behav{Hold: true})
+		}
+		_ = cl.Send(tm)
+		if !S.WaitEntered(ekey, deadline) {
+			return hangErr("target never reached the implementation")
+		}
+		var chunk []byte
+		for i := 0; i < nflush; i++ {
+			if c.OneByOne {
+				_ = cl.Send(mkFlush(i, ttag))
+			} else {
+				chunk = append(chunk, ref9p.Encode(mkFlush(i, ttag), c.Dotu)...)
+			}
+		}
+		if len(chunk) > 0 {
+			_ = cl.SendRaw(chunk)
+		}
+		w := c.WaitFor
+		if w < 1 || w > nflush {
+			w = nflush
+		}
+		if c.Wedge && w < 2 && nflush > 1 {
+			w = 2 // the wedged Tflush must not be the only one linked
+		}
+		for i := 0; i < w; i++ {
+			fk := fmt.Sprintf("Tflush/%d/%d", ttag, 20+i)
+			if !ctl.WaitSeen(fk, "flush.linked", deadline) {
+				return hangErr(fmt.Sprintf("%s never reached flush.linked while the target is held in the implementation", fk))
+			}
+		}
+		ctl.Signal("harness", "go")
+		if c.FlushMode != script.FlushCancel || c.Target == "auth" {
+			S.ReleaseAll() // nobody cancels: the target completes
+		}
+		rebindStage = true
 	case "in-process", "in-respond":
 		// the target sits inside the implementation's SrvReqProcess wrapper
 		// (before req.Process()) or SrvReqRespond wrapper (its reply decided,
@@ -310,6 +390,9 @@ func run(c *Case) error {
 		frames = append(frames, frame{answeredFirst, S.Seq()})
 	}
 	gotFlush := map[uint16]int{}
+	var probe *ref9p.Msg  // stage rebind: the request sent with the old tag at the first Rflush
+	var post []*ref9p.Msg // non-Rflush frames with the old tag that arrived after it was sent
+	rebinding := false
 	recv := func(d time.Duration) (bool, error) {
 		f, err := cl.RecvRaw(d)
 		if err == rawc.ErrTimeout {
@@ -321,6 +404,10 @@ func run(c *Case) error {
 		m, _, derr := ref9p.Decode(f, c.Dotu)
 		if derr != nil {
 			return false, fmt.Errorf("server sent a frame that does not decode: %v: %x", derr, f)
+		}
+		if probe != nil && m.Tag == ttag && m.Type != ref9p.Rflush {
+			post = append(post, m)
+			return true, nil
 		}
 		frames = append(frames, frame{m, S.Seq()})
 		if m.Type == ref9p.Rflush {
@@ -353,6 +440,31 @@ func run(c *Case) error {
 			}
 		}
 	}
+	if rebindStage {
+		// the first Rflush: from this moment the old tag is free, and so is
+		// everything a request that was not answered with success had reserved
+		for len(gotFlush) == 0 {
+			ok, err := recv(deadline)
+			if err != nil {
+				return err
+			}
+			if !ok {
+				return hangErr("no Tflush was answered although the FlushOp cancels the target / the target was released")
+			}
+		}
+		bound := false
+		for _, f := range frames {
+			if f.m.Tag == ttag && f.m.Type == tm.Type+1 {
+				bound = true
+			}
+		}
+		rebinding = !bound
+		p := rebindProbe(c, rebinding)
+		p.Tag = ttag
+		_ = cl.Send(p)
+		probe = p
+		hx.Label(fmt.Sprintf("old tag re-used at the first Rflush, re-binding the fid number=%v", rebinding))
+	}
 	// give a cancelling FlushOp the chance to answer while the target is still held
 	if c.Stage == "held" || c.Stage == "multi" || c.Stage == "flush-of-flush" || c.Stage == "queued" {
 		wait := 3 * time.Millisecond
@@ -374,6 +486,15 @@ func run(c *Case) error {
 		}
 		if !ok {
 			return hangErr(fmt.Sprintf("not every Tflush was answered (%d of %d) although all requests were released", len(gotFlush), len(flushTags)))
+		}
+	}
+	for probe != nil && len(post) == 0 {
+		ok, err := recv(deadline)
+		if err != nil {
+			return err
+		}
+		if !ok {
+			return hangErr("the request that re-used the old tag when the first Rflush arrived was never answered")
 		}
 	}
 	// wait for the implementation to be quiet, then fence
@@ -432,6 +553,22 @@ func run(c *Case) error {
 		if gotFlush[t] != 1 {
 			return fmt.Errorf("Tflush tag %d was answered %d times", t, gotFlush[t])
 		}
+	}
+	rebound := false
+	if probe != nil {
+		if len(post) != 1 {
+			return fmt.Errorf("%d replies carry the old tag %d after the first Rflush, when exactly one request (%s, sent at that moment) was outstanding with it: a reply to the flushed request came after its Rflush", len(post), ttag, ref9p.TypeName(probe.Type))
+		}
+		r := post[0]
+		switch {
+		case r.Type == ref9p.Rerror && tb.Err != "" && r.Ename == tb.Err:
+			return fmt.Errorf("the reply to the flushed request (Rerror %q, tag %d) was sent after the Rflush", r.Ename, ttag)
+		case rebinding && r.Type != ref9p.Rwalk:
+			return fmt.Errorf("the first of %d Rflush arrived and no success reply to the flushed %s had preceded it, yet a Twalk (re-using the old tag) to fid number %d, which that %s would have bound, is answered %s %q: the flushed request had left fid state behind when its Rflush arrived", nflush, c.Target, probe.Newfid, c.Target, ref9p.TypeName(r.Type), r.Ename)
+		case !rebinding && r.Type != ref9p.Rstat:
+			return fmt.Errorf("the first of %d Rflush arrived after the reply to the flushed %s; a Tstat re-using the old tag is answered %s %q", nflush, c.Target, ref9p.TypeName(r.Type), r.Ename)
+		}
+		rebound = rebinding
 	}
 	firstRflush := -1 // index of the first Rflush of a flush aimed at the target's tag
 	var firstStamp int64
@@ -519,6 +656,11 @@ func run(c *Case) error {
 	hx.ExtraAdd("holds_applied", int64(ap))
 	hx.ExtraAdd("holds_forced", int64(fo))
 
+	if rebound {
+		if r, err := cl.Clunk(probe.Newfid); err != nil || r.Type != ref9p.Rclunk {
+			return fmt.Errorf("probe: clunk of the fid bound at the first Rflush: %v %+v", err, r)
+		}
+	}
 	// ---- probes: protocol state after the dust has settled
 	impl := len(tEnter) == 1
 	replyOK := false
@@ -666,6 +808,27 @@ func run(c *Case) error {
 	return nil
 }
 
+// rebindExpected: will the target of a rebind case end without a success reply
+// (cancelled by the FlushOp, or answered Rerror)? The script's FlushOp cannot
+// cancel a Tauth (AuthInit is not a request handed to it) and AuthInit succeeds.
+func rebindExpected(c *Case) bool {
+	return c.Target != "auth" && (c.FlushMode == script.FlushCancel || c.TErr)
+}
+
+// rebindProbe is the request sent with the old tag the moment the first Rflush
+// arrives: a Twalk binding the fid number the target would have bound, or (the
+// target was answered with success) a Tstat of the root.
+func rebindProbe(c *Case, rebinding bool) *ref9p.Msg {
+	if !rebinding {
+		return &ref9p.Msg{Type: ref9p.Tstat, Fid: 0}
+	}
+	n := uint32(100)
+	if c.Target == "walk" {
+		n = 101
+	}
+	return &ref9p.Msg{Type: ref9p.Twalk, Fid: 0, Newfid: n, Wname: []string{fmt.Sprintf("d%d", n)}}
+}
+
 func outcome(cancelled, effect bool) string {
 	switch {
 	case cancelled:
@@ -691,7 +854,7 @@ func execute(test string, c *Case) error {
 		hx.Label("implementation provides SrvReqProcessOps")
 	}
 	switch c.Stage {
-	case "same-chunk", "queued", "held", "multi", "flush-of-flush", "in-process", "in-respond":
+	case "same-chunk", "queued", "held", "multi", "flush-of-flush", "in-process", "in-respond", "rebind":
 		b, _ := json.Marshal(c)
 		hx.NonTrivial(b)
 	}
@@ -831,18 +994,74 @@ func TestEnumInWrapper(t *testing.T) {
 	hx.Exhaustive(fmt.Sprintf("target parked in the SrvReqProcess / SrvReqRespond wrapper: %d target types x 2 wrappers x %d release points of the flusher", len(kinds), len(wpoints)))
 }
 
+// TestEnumRebind: a fid-creating target is held in the implementation, K
+// Tflushes of it are all linked before the first calls the FlushOp; the old tag
+// and the fid number are re-used the moment the first Rflush arrives.
+func TestEnumRebind(t *testing.T) {
+	ks := []int{1, 2, 8, 48}
+	if hx.Thorough() {
+		ks = []int{1, 2, 3, 5, 8, 16, 24, 48, 64}
+	}
+	idx := 0
+	for _, tk := range []string{"walk", "attach", "auth"} {
+		for _, k := range ks {
+			for _, fm := range []int{script.FlushCancel, script.FlushAbsent, script.FlushIgnore} {
+				for wedge := 0; wedge < 2; wedge++ {
+					if wedge == 1 && k == 1 {
+						continue
+					}
+					idx++
+					if hx.NShards > 1 && idx%hx.NShards != hx.Shard {
+						continue
+					}
+					c := &Case{Dotu: idx%4 < 2, FlushMode: fm, Maxpend: []int{0, 4}[idx%2], Warm: []string{tk, "read"}, Target: tk, TErr: idx%5 == 3,
+						Stage: "rebind", NFlush: k, Wedge: wedge == 1, OneByOne: idx%3 == 1, ProcOps: idx%4 == 1}
+					if tk == "auth" {
+						c.Warm = []string{"read", "walk"}
+					}
+					if idx%7 == 0 {
+						c.WaitFor = (k + 1) / 2
+					}
+					if err := execute("rebind", c); err != nil {
+						hx.Violation("rebind", c, err.Error())
+						t.Fatalf("%+v: %v", c, err)
+					}
+				}
+			}
+		}
+	}
+	hx.Exhaustive(fmt.Sprintf("old tag and fid number re-used at the first Rflush: 3 fid-creating targets x %d flusher counts x 3 FlushOp modes x wedged or not", len(ks)))
+}
+
 func TestPropStages(t *testing.T) {
 	hx.Check(t, "stages", hx.N(400, 4000), func(t *rapid.T) {
 		c := &Case{Dotu: rapid.Bool().Draw(t, "dotu"), FlushMode: rapid.IntRange(0, 2).Draw(t, "flushmode"), Maxpend: rapid.SampledFrom([]int{0, 4}).Draw(t, "maxpend")}
 		c.Target = rapid.SampledFrom(kinds).Draw(t, "target")
 		c.TErr = rapid.IntRange(0, 4).Draw(t, "terr") == 0
-		c.Stage = rapid.SampledFrom([]string{"same-chunk", "same-chunk", "queued", "queued", "held", "held", "answered", "unknown", "flush-of-flush", "multi", "in-process", "in-respond", "in-respond"}).Draw(t, "stage")
+		c.Stage = rapid.SampledFrom([]string{"same-chunk", "same-chunk", "queued", "queued", "held", "held", "answered", "unknown", "flush-of-flush", "multi", "in-process", "in-respond", "in-respond", "rebind", "rebind"}).Draw(t, "stage")
 		c.NFlush = 1
 		if c.Stage == "multi" || rapid.IntRange(0, 2).Draw(t, "morefl") == 0 {
 			c.NFlush = rapid.IntRange(2, 3).Draw(t, "nflush")
 		}
 		if c.Stage == "flush-of-flush" {
 			c.NFlush = 2
+		}
+		if c.Stage == "rebind" {
+			c.Target = rapid.SampledFrom([]string{"walk", "walk", "attach", "attach", "auth"}).Draw(t, "rebindtarget")
+			if rapid.Bool().Draw(t, "fewflushes") {
+				c.NFlush = rapid.IntRange(1, 4).Draw(t, "nflush")
+			} else {
+				c.NFlush = rapid.IntRange(5, 64).Draw(t, "nflush")
+			}
+			c.Wedge = c.NFlush > 1 && rapid.Bool().Draw(t, "wedge")
+			if rapid.IntRange(0, 3).Draw(t, "partial") == 0 {
+				lo := 1
+				if c.Wedge {
+					lo = 2
+				}
+				c.WaitFor = rapid.IntRange(lo, c.NFlush).Draw(t, "waitfor")
+			}
+			c.OneByOne = rapid.Bool().Draw(t, "onebyone")
 		}
 		if c.Stage == "unknown" {
 			switch rapid.IntRange(0, 3).Draw(t, "unknownkind") {
